@@ -295,8 +295,8 @@ def check_dump(res, r, tier, prep, cx, tabs, drv):
             if mo.startswith("dump ok "):
                 h = mo.split()[2]
                 mt = "" if h == "-" else bytes.fromhex(h).decode("latin1")
-            elif mo == "dump unknown":
-                mt = "UNKNOWN"
+            elif mo == "dump unknown" or mo.startswith("dump err "):
+                mt = "UNKNOWN"      # ovnidump prints UNKNOWN whenever model_event_print fails
             else:
                 mt = None
             if mt != text:
